@@ -87,12 +87,17 @@ Definition c17_oracle (f : func) (sp : scalar) (sts : list sstate) (obs : res sm
     end
   else true.
 
+(* initial memory of a run, sent compactly: bytes [bs] at consecutive addresses from [base] (mod 2^w) *)
+Fixpoint arena (w base : Z) (bs : list Z) : list (Z * Z) :=
+  match bs with [] => [] | b :: t => (base mod 2 ^ w, b) :: arena w (base + 1) t end.
+
 Inductive case :=
-| K (f : func) (sp : scalar) (big : bool) (runs : list (senv * list (Z * Z))) (obs : res smap).
+| K (f : func) (sp : scalar) (big : bool) (runs : list (senv * (Z * list Z))) (obs : res smap).
 
 Definition ck (k : case) : bool * bool :=
   match k with
   | K f sp big runs obs =>
       (res_eqb smap_eqb (stack_pointer_offsets_max CASE_MAX f sp) obs,
-       c17_oracle f sp (List.map (fun r : senv * list (Z * Z) => mkst (fst r) (mkbmem big (snd r))) runs) obs)
+       c17_oracle f sp (List.map (fun r : senv * (Z * list Z) =>
+                                    mkst (fst r) (mkbmem big (arena (sbits sp) (fst (snd r)) (snd (snd r))))) runs) obs)
   end.
